@@ -148,6 +148,13 @@ def _plain_key(k):
     return bool(k) and "/" not in k and not k.startswith("__") and not k.startswith("@")
 
 
+def _lit_key(k):
+    """a key that MergeTree takes literally beside an __include: anything but a directive, a list index or an operator suffix
+    (a '/' inside it is part of the key there, not a path separator)"""
+    return bool(k) and not k.startswith("__") and not k.startswith("@") and not k.endswith("/+") and not k.endswith("/=") \
+        and not k.startswith("/") and not k.endswith("/")
+
+
 def _plain_tree(t):
     """directive-free and without any operator-looking key"""
     if isinstance(t, list):
@@ -275,7 +282,7 @@ def simple_expect(docs, name):
         for k, v in t.items():
             if k in ("__include", "__patch"):
                 continue
-            if not _plain_key(k):
+            if not _lit_key(k):
                 raise Unsupported("operator key")
             data[k] = ev(cur, v)
         val = data
@@ -473,6 +480,32 @@ def gen_viamid(rng, idx):
         docs["a.custom"] = {"patch": {"zz": "c"}}
     ops = [("compile", x) for x in rng.sample(["a", "b"], 2)]
     return {"id": "vm%d" % idx, "docs": docs, "ops": ops, "mode": "simple", "risk": 0, "features": sorted(feats)}
+
+
+def gen_manypatch(rng, idx):
+    """directed family inside the fragment: MANY patches on one node (17 to 26 list entries, or several nested directive
+    sections plus a long list: more dependencies than a small-array sort keeps stable), each overwriting the same keys — the
+    last one must win, in list order; and sibling keys that contain '/' beside an __include (merged as KEYS, not as paths)"""
+    g = G.Gen(rng, "acyclic")
+    g.risk = 0
+    base = {"v": "base", "style": {"color": "aqua", "font": "serif"}, "menu": {"ps": "5"}}
+    n = rng.randint(17, 26)
+    lits = {"l%02d" % i: {"v": "q%02d" % i} for i in range(4)}
+    plist = []
+    for i in range(n):
+        if rng.random() < 0.15:
+            plist.append("/lits/l%02d" % rng.randrange(4))
+        else:
+            plist.append({"v": "p%02d" % i, "w%d" % (i % 3): "p%02d" % i})
+    many = {"__include": "/base", "__patch": plist}
+    mixed = {"__include": "/base", "__patch": [{"v": "m%02d" % i} for i in range(rng.randint(9, 12))]}
+    for j in range(rng.randint(6, 9)):
+        mixed["s%d" % j] = {"__include": "/lits/l%02d" % (j % 4), "on": "1"}
+    slash = {"__include": "/base", "style/font": "mono", "menu/ps": "9", "style/extra": {"depth": "2"}}
+    a = {"base": base, "lits": lits, "many": many, "mixed": mixed, "slash": slash}
+    docs = {"a": a, "b": {"q": {"__include": "a:/" + rng.choice(["many", "mixed", "slash"])}}}
+    ops = [("compile", x) for x in rng.sample(["a", "b"], 2)]
+    return {"id": "mp%d" % idx, "docs": docs, "ops": ops, "mode": "simple", "risk": 0, "features": ["many-patches", "slash-keys-beside-include"]}
 
 
 def gen_rootinc(rng, idx):
@@ -729,6 +762,7 @@ def run(c):
     n_dir = 150 if quick else 3000
     cases += [gen_listref(c.rng, i) for i in range(n_dir)] + [gen_rootinc(c.rng, i) for i in range(n_dir)]
     cases += [gen_prefixsib(c.rng, i) for i in range(n_dir)] + [gen_viamid(c.rng, i) for i in range(n_dir)]
+    cases += [gen_manypatch(c.rng, i) for i in range(max(20, n_dir // 5))]
     cases += [G.gen_case(c.rng, i, "acyclic") for i in range(n_ac)]
     arb = [G.gen_case(c.rng, i, "arbitrary") for i in range(n_ar)]
     stats = {"compiles": 0, "clean_equal": 0, "failed_equal": 0, "best_effort": 0, "o_simple": 0, "o_plain": 0}
